@@ -7,15 +7,15 @@ namespace GnoVerif.C08
 def ChainOk (ch : Chain) : Prop :=
   ∀ (bid : Nat) (bi : BankerInfo), ch.persisted[bid]? = some bi → bi.src = .persisted
 
-theorem steps_bankers_prefix {env : Env} {a b : St} (h : Steps env a b) : ∃ l, b.bankers = a.bankers ++ l := by
+theorem steps_bankers_prefix {env : Env} {sends : Bool} {a b : St} (h : Steps env sends a b) : ∃ l, b.bankers = a.bankers ++ l := by
   refine steps_inv (fun s => ∃ l, s.bankers = a.bankers ++ l) ?_ h ⟨[], by simp⟩
   intro x y hat ⟨l, hl⟩
   cases hat with
   | tok _ _ => exact ⟨l, hl⟩
   | banker bi _ => exact ⟨l ++ [bi], by simp [hl]⟩
-  | move _ _ _ _ _ => exact ⟨l, hl⟩
+  | move _ _ _ _ _ _ => exact ⟨l, hl⟩
   | supply _ _ _ => exact ⟨l, hl⟩
-  | spent _ _ => exact ⟨l, hl⟩
+  | spent _ _ _ => exact ⟨l, hl⟩
   | params _ _ => exact ⟨l, hl⟩
 
 theorem logSum_neg_has_debit : ∀ (log : List Ev) (a : Addr) (d : Str), logSum log a d < 0 →
@@ -42,8 +42,8 @@ structure RunFacts (env : Env) (persisted : List BankerInfo) (led0 : Ledger) (lo
   bal : BankBal led0 st.bank
   supply : SupplyInv led0 st
 
-theorem RunFacts.steps {env : Env} {persisted : List BankerInfo} {led0 : Ledger} {log0 : List Ev} {a b : St}
-    (h : Steps env a b) (ha : RunFacts env persisted led0 log0 a) : RunFacts env persisted led0 log0 b := by
+theorem RunFacts.steps {env : Env} {sends : Bool} {persisted : List BankerInfo} {led0 : Ledger} {log0 : List Ev} {a b : St}
+    (h : Steps env sends a b) (ha : RunFacts env persisted led0 log0 a) : RunFacts env persisted led0 log0 b := by
   obtain ⟨l1, hl1⟩ := ha.pfx
   obtain ⟨l2, hl2⟩ := steps_bankers_prefix h
   have hled : LedgerInv led0 [] b := steps_inv (LedgerInv led0 []) (fun _ _ hat hi => atom_ledgerInv hat hi) h (by
